@@ -32,6 +32,8 @@ THEOREMS = [
     # the identical value (true by construction in a functional model: spelt out for histories, tied by _corr_memory)
     'C16.Mem.call_frame', 'C16.Mem.call_result', 'C16.Mem.call_error', 'C16.Mem.size_step_le', 'C16.Mem.step_frame',
     'C16.Mem.run_frame', 'C16.Mem.call_scribble_call', 'C16.Mem.two_results_distinct',
+    # arrays of planes: accepted iff every row is a plane on its own (zero row / non-integer row rejects the array)
+    'C16.planeArr_ok_iff', 'C16.planeArr_rows', 'C16.planeRow_zero',
     # centering tables (generated from miller.py)
     'C16.centering_inverse', 'C16.centering_det',
     # reduce_indices / all_indices
@@ -708,6 +710,31 @@ def _cmp_plane(V):
     return f
 
 
+def _cmp_plane_arr(V, rows):
+    """array of planes: the model's unnormalised normals, row by row; rounding bound as in `_plane_tol` with the in-plane
+    index vectors bounded by 2*lcm of the row's indices."""
+    def f(impl, out):
+        model = cm.unfrs(out)
+        vals = _np().asarray(impl, dtype=float).reshape(-1, 3).tolist()
+        if len(model) != 3 * len(rows) or len(vals) != len(rows):
+            return f'implementation returns {len(vals)} normals, model {len(model) // 3} for {len(rows)} planes'
+        rown = [math.sqrt(sum(float(x) ** 2 for x in r)) for r in V]
+        for j, row in enumerate(rows):
+            n = model[3 * j:3 * j + 3]
+            nn = math.sqrt(float(sum(x * x for x in n)))
+            m = 1
+            for x in row:
+                x = abs(int(x))
+                if x:
+                    m = m * x // math.gcd(m, x)
+            tol = 16 * U * (2 * m * max(rown)) ** 2 / nn + 16 * U
+            unit = [float(x) / nn for x in n]
+            if any(not (abs(v - u) <= tol) for v, u in zip(vals[j], unit)):
+                return f'row {j} {row}: implementation normal {vals[j]} != model {unit} (tol {tol:.2e})'
+        return None
+    return f
+
+
 def _cmp_fam(impl, out):
     """impl = (identify, [7 predicate bools])"""
     toks = out.split()
@@ -926,6 +953,45 @@ def correspond(ctx):
                   {'cell': label, 'vects': V.tolist(), 'origin': box.origin.tolist(), 'uvw': list(t)})
         _shape_variants(ctx, 'plane_crystal_to_cartesian', box.plane_crystal_to_cartesian, np.array(nz), normals,
                         extra={'cell': label})
+        # ARRAYS of planes (model op planearr): all rows planes, or one row that is none (zero vector / not integers)
+        for it in range(ctx.n(10, 80)):
+            shape = rng.choice([(2,), (3,), (5,), (2, 2), (1, 3), (2, 1, 2)])
+            cnt = 1
+            for d in shape:
+                cnt *= d
+            four = ishex_model and it % 4 == 3
+            if four:
+                rows = [list(q) for q in rng.sample([q for q in quads_ok if (q[0], q[1], q[3]) != (0, 0, 0)], cnt)]
+            else:
+                rows = [list(t) for t in rng.sample(nz, cnt)]
+            kind = rng.choice(['valid', 'valid', 'zero', 'half', 'half-cancel', 'guard'])
+            j = rng.randrange(cnt)
+            k_ = len(rows[0])
+            if kind == 'zero':
+                rows[j] = [0] * k_
+            elif kind == 'half':
+                rows[j][rng.choice([0, 1, k_ - 1])] += 0.5
+            elif kind == 'half-cancel':
+                rows[j][0] += 0.5
+                rows[(j + 1) % cnt][0] -= 0.5
+            elif kind == 'guard':
+                if not four:
+                    kind = 'valid'
+                else:
+                    rows[j][2] += 1
+                    if cnt > 1 and rng.random() < 0.5:
+                        rows[(j + 1) % cnt][2] -= 1
+            arr = np.array(rows).reshape(shape + (k_,))
+            if arr.dtype.kind in 'iu' and it % 2:
+                arr = arr.astype(float)
+            r, e = _call(box.plane_crystal_to_cartesian if it % 3 else (lambda x: miller.plane_crystal_to_cartesian(x, box)), arr)
+            if e is None and np.asarray(r).shape != arr.shape[:-1] + (3,):
+                ctx.disagree('plane_normal:array', f'plane_crystal_to_cartesian: result shape {np.asarray(r).shape} for input shape '
+                             f'{arr.shape}', {'op': 'plane_normal:array', 'input': arr.tolist(), 'vects': V.tolist()})
+                continue
+            B.add('plane_normal:array', f'planearr {hx} {atol_s} {k_} {Vs} ' + ' '.join(cm.fr(float(v)) for row in rows for v in row),
+                  r, e, _cmp_plane_arr(Vfr, [[row[0], row[1], row[-1]] for row in rows]),
+                  {'cell': label, 'vects': V.tolist(), 'array': arr.tolist(), 'kind': kind}, nontrivial=(kind == 'valid'))
         crows, carts = _vcall(box.vector_crystal_to_cartesian, S)
         for t, (r, e) in zip(sel[::ctx.n(7, 3)], crows[::ctx.n(7, 3)]):
             B.add('vector_cart', f'vc2c {hx} {atol_s} {Vs} %d %d %d' % t, r, e,
@@ -1328,12 +1394,27 @@ def _corr_memory(ctx, rng, atol_s):
 def _malformed(rng, n):
     out = ['[1 0 0', '(1 0 0]', '[1 0 0)', '{1 0 0', '<1 1 -2 0', '[1 2]', '[1 2 3 4 5]', '[]', '[ ]',
            '1/0 [1 0 0]', '1/2/3 [1 0 0]', '2 [1 0 0]', '1/2 [1 0]', '1/-0 (1 1 1)', '1 2', '1 2 3 4 5', '',
-           '] [1 2 3', '1/2 ] [1 2 3', '(1 2 3) [1 1 1]', '[1 1 1] (1 2 3)', '1/2 (1 2 3) [4 5 6]', '{1 1 1} <1 2 3>']
+           '] [1 2 3', '1/2 ] [1 2 3', '(1 2 3) [1 1 1]', '[1 1 1] (1 2 3)', '1/2 (1 2 3) [4 5 6]', '{1 1 1} <1 2 3>',
+           # commas, the typographic minus sign, other separators, brackets that do not match
+           '[1, 0, 0]', '[1,0,0]', '(1, 1, -2, 0)', '[\u22121 0 0]', '[1 \u22121 0]', '1/2 [1 1 \u22122 0]', '[1;0;0]',
+           '1, 0, 0', '\u22121 0 0', '[1 0 0 ,]', '[1 0 0 x]', '<1 1 0)', '{1 1 0]', '(1 1 0>', '[1 1 0}', ']1 0 0[',
+           ')1 0 0(', '1/2 [1 1 0', '1/2 1 1 0]', '[[1 0 0]]', '[1 0 0]]', '((1 0 0)', '[1 0 0] [0 1 0]', '[1 0 0](0 1 0)',
+           '1/2[1 1 0]', '1/2  [1 1 0] ', '-1/2 <1 1 0>', '1/ 2 [1 1 0]', '1 /2 [1 1 0]', '1/2/ [1 1 0]', '/2 [1 1 0]',
+           '1/ [1 1 0]', '\u22121/2 [1 1 0]']
     while len(out) < n:
         idx = [rng.randint(-9, 9) for _ in range(rng.choice([1, 2, 5, 6, 3, 4]))]
         o, c = rng.choice(BRACKETS)
-        kind = rng.choice(['noclose', 'wrongclose', 'count', 'zerodiv', 'twoslash', 'noslash'])
+        kind = rng.choice(['noclose', 'wrongclose', 'count', 'zerodiv', 'twoslash', 'noslash', 'comma', 'uminus', 'swapped'])
         body = ' '.join(map(str, idx))
+        if kind == 'comma':
+            out.append(o + rng.choice([', ', ',', ' ,']).join(map(str, idx)) + c)
+            continue
+        if kind == 'uminus':
+            out.append((rng.choice(['', '1/2 ', '\u22121/2 '])) + o + body.replace('-', '\u2212') + c)
+            continue
+        if kind == 'swapped':
+            out.append(c + body + o)
+            continue
         if kind == 'noclose':
             out.append(o + body)
         elif kind == 'wrongclose':
@@ -1414,12 +1495,14 @@ def _o_roundtrip34(ctx, np, miller, t):
     want4 = [Fraction(2 * t[0] - t[1], 3), Fraction(2 * t[1] - t[0], 3), Fraction(-(t[0] + t[1]), 3), Fraction(t[2])]
     r, e = _call(miller.vector4to3, v4)
     ok = e is None and cm.allclose(v4.tolist(), want4, 1e-14, 1e-15) and cm.allclose(r.tolist(), [Fraction(x) for x in t], 1e-14, 1e-14)
+    v4b = None
     if ok:
         v4b = miller.vector3to4(r)
         ok = cm.allclose(v4b.tolist(), want4, 1e-14, 1e-14)
     if not ok:
         ctx.violate('vector34:roundtrip', f'vector3to4/vector4to3 round trip loses {t}: 3->4 {v4.tolist()}, back '
-                    f'{None if r is None else r.tolist()} ({e})', {'op': 'roundtrip34', 'idx': t})
+                    f'{None if r is None else r.tolist()} ({e})' +
+                    ('' if v4b is None else f', 3->4 of that again {v4b.tolist()}'), {'op': 'roundtrip34', 'idx': t})
     # guard: a quadruple whose first three entries do not sum to zero is rejected
     for f, nm in ((miller.plane4to3, 'plane4to3'), (miller.vector4to3, 'vector4to3')):
         bad = [t[0], t[1], -(t[0] + t[1]) + 1, t[2]]
